@@ -58,6 +58,13 @@ def build_cells():
                 if op in ('<', '<='):
                     for (pn, fw), (_, ft) in zip(conj_positions(atomW, ('i == 0', 'b', 'y <= 7')), conj_positions(atomT, ('i == 0', 'b', 'y <= 7'))):
                         add('clock-vs-floating', 'invariant:%s:%s:%s:%s' % (op, vn, order, pn), ['symbolic'], dict(inv=fw), dict(inv=ft))
+    # the comparison shares the invariant with rates that symbolic analysis allows, before and after them
+    for fn, fillers in [('rate0-first-filler', ("y' == 0", 'b', 'y <= 7')), ('rate1-second-filler', ('i == 0', "y' == 1", 'y <= 7')), ('hybrid-rate-filler', ("hx' == 3", 'b', "y' == 0"))]:
+        for order, atomW, atomT in [('clock-first', 'x <= 1.5', 'x <= 2'), ('strict', 'x < KD', 'x < 3')]:    # '1.5 >= x' is typed as a guard and rejected as an invariant
+            for (pn, fw), (_, ft) in zip(conj_positions(atomW, fillers), conj_positions(atomT, fillers)):
+                if pn == 'only':
+                    continue
+                add('clock-vs-floating', 'invariant-with-rates:%s:%s:%s' % (fn, order, pn), ['symbolic'], dict(inv=fw), dict(inv=ft))
     add('clock-vs-floating', 'guard:difference', ['symbolic'], dict(guard='x - y < 1.5'), dict(guard='x - y < 2'))
     add('clock-vs-floating', 'guard:disjunction-with-clock-free-operand', ['symbolic'], dict(guard='b || x < 1.5'), dict(guard='b || x < 2'))
     add('clock-vs-floating', 'guard:forall-body', ['symbolic'], dict(guard='forall (k : int[0,1]) x < 1.5'), dict(guard='forall (k : int[0,1]) x < 2'))
@@ -199,7 +206,7 @@ def unused_variants():
 RULE = ('cell enumeration: restricting feature x placement. clock compared with a floating value (guard and invariant; every '
         'relational operator; literal / double variable / const double / double expression; clock first or value first; every '
         'conjunct position of 1-, 2- and 3-conjunct formulas and a nested conjunction; clock difference; disjunction with a '
-        'clock-free operand; forall body; second edge / second location; together with a rate; template-local clock), '
+        'clock-free operand; forall body; second edge / second location; together with a rate; before, between and after rates that symbolic analysis allows; template-local clock), '
         'assignment of a clock or double variable from a floating value (every position of 1..3-element update lists, four value '
         'shapes, second edge, template-local clock, branches of conditional updates, clock array elements, bodies of global and '
         'template-local functions called from the update incl. a call chain), clock initialised with a floating value (global / '
